@@ -923,6 +923,7 @@ func oracleC09R(p *Plan, res *Result) (*common.Fail, bool) {
 	offers, ends := collect("ConnRes"), collect("DiscReq")
 	first := map[int]bool{}
 	firstHex := map[int]string{}
+	lastCh := -1
 	queuedAcross := false
 	sendStart := map[int]int64{}
 	for i, e := range evs {
@@ -940,6 +941,14 @@ func oracleC09R(p *Plan, res *Result) (*common.Fail, bool) {
 			}
 			first[e.Tag] = true
 			firstHex[e.Tag] = e.Hex
+			// "the sequence numbers of both directions restart at 0": the first request that carries a newly assigned
+			// channel opens that connection's numbering (plans in which the gateway re-uses the channel are not judged)
+			if p.DefConn.Ch != -1 {
+				if lastCh >= 0 && e.Ch != lastCh && e.Seq != 0 {
+					return failTrace(evs, i, "counter-not-reset", "telegram %d is the first request transmitted with the newly assigned channel %d and carries sequence number %d (the previous request went out on channel %d)", e.Tag, e.Ch, e.Seq, lastCh), false
+				}
+				lastCh = e.Ch
+			}
 			offered := false
 			for _, o := range offers {
 				if o.ch == e.Ch && o.inj <= e.T {
@@ -988,6 +997,11 @@ func genPlanC09R(rt *rapid.T) *Plan {
 		p.DefConn.Ch = -1
 	}
 	// the first Send (or the first few transmissions) get no acknowledgement: it holds the sender lock until its timeout
+	// (after 0..3 requests that are acknowledged normally, so that the sender's counter is not 0 when the connection is
+	// replaced)
+	for i := 0; i < rapid.IntRange(0, 3).Draw(rt, "acked-first"); i++ {
+		p.Ack = append(p.Ack, okFate(100))
+	}
 	lost := rapid.IntRange(8, 30).Draw(rt, "lost-acks")
 	for i := 0; i < lost; i++ {
 		p.Ack = append(p.Ack, Fate{Act: "lose"})
@@ -996,7 +1010,7 @@ func genPlanC09R(rt *rapid.T) *Plan {
 	tag := 1
 	for l := 0; l < lanes; l++ {
 		var lane []AppStep
-		for i := 0; i < rapid.IntRange(1, 2).Draw(rt, "n"); i++ {
+		for i := 0; i < rapid.IntRange(1, 3).Draw(rt, "n"); i++ {
 			lane = append(lane, AppStep{AfterUs: rapid.IntRange(0, 3000).Draw(rt, "gap") + l*500, Tag: tag})
 			tag++
 		}
